@@ -192,3 +192,15 @@ MUTATIONS += [
     ("unbox-outside-try", ["C08", "C07"], P, "        try:\n            handler, args = raw_args\n            args = self._unbox(args)",
      "        handler, args = raw_args\n        args = self._unbox(args)\n        try:\n            pass"),
 ]
+
+CO2 = "rpyc/lib/colls.py"
+MUTATIONS += [
+    # ---- C10: lifetimes
+    ("decref-lt-to-le", ["C10"], CO2, "            if slot[1] < count:", "            if slot[1] <= count:"),
+    ("netref-del-releases-one", ["C10"], N, "            asyncreq(self, consts.HANDLE_DEL, self.____refcount__)", "            asyncreq(self, consts.HANDLE_DEL, 1)"),
+    ("unbox-no-refcount-bump", ["C10"], P, "                proxy.____refcount__ += 1  # if cached then remote incremented refcount, so sync refcount", "                pass"),
+    ("add-not-counting-repeats", ["C10"], CO2, "            else:\n                slot[1] += 1\n            self._dict[key] = slot", "            self._dict[key] = slot"),
+    ("cleanup-not-clearing-table", ["C10", "C11"], P, "        self._local_objects.clear()\n", "        pass\n"),
+    ("proxy-cache-strong-refs", ["C10"], CO2, "        self._dict[key] = weakref.ref(value, remover)", "        self._dict[key] = (lambda v=value: v)"),
+    ("handle-del-ignores-count", ["C10"], P, "        self._local_objects.decref(get_id_pack(obj), count)", "        self._local_objects.decref(get_id_pack(obj))"),
+]
